@@ -1,1 +1,3 @@
 pub mod date;
+pub mod http;
+pub mod routes;
